@@ -58,6 +58,7 @@ def _worker(i):
 
 _SATS_BY_TASK = None
 _KNOWN = None
+_TIER = "quick"
 REPLAY_CAP = 3
 
 
@@ -73,6 +74,15 @@ def _replay_group(i):
             rp = _PROP.replay(t, r)
         except BaseException as e:  # noqa
             rp = dict(confirmed=False, detail="replay crashed: %s: %s" % (type(e).__name__, e))
+        if not rp.get("confirmed") and re.search(r"OutOfBounds|uninitialised", str(r.get("detail") or "")):
+            # the symbolic run hit an out-of-bounds / uninitialised access in the interpreted C: confirm under valgrind memcheck
+            try:
+                from . import vgreplay
+                rp2 = vgreplay.confirm(_PROP.PROP_ID, _TIER, t.name, r.get("model_float") or {})
+                rp2["plain_replay"] = rp.get("detail")
+                rp = rp2
+            except BaseException as e:  # noqa
+                rp["detail"] = "%s | valgrind replay crashed: %s: %s" % (rp.get("detail"), type(e).__name__, e)
         kid = None
         if rp.get("confirmed"):
             k = _match_known(_KNOWN, _PROP.PROP_ID, r, t.cfg)
@@ -162,7 +172,8 @@ def run_property(prop, tier, seed=0, only=None, jobs=None):
     tmap = {t.name: t for t in tasks}
     # replays: the first one runs in this process (builds the real libraries once), the rest in a fork pool grouped by
     # task; within a task replaying stops after REPLAY_CAP reproduced *unlisted* counterexamples (exit status is 1 anyway)
-    global _SATS_BY_TASK, _KNOWN
+    global _SATS_BY_TASK, _KNOWN, _TIER
+    _TIER = tier
     _KNOWN = known
     by_task = {}
     for r in sats:
@@ -305,8 +316,12 @@ def replay_file(prop, path):
         d = json.load(f)
     tasks = {t.name: t for tier in ("thorough", "quick") for t in prop.tasks(tier)}
     t = tasks[d["task"]]
-    rec = dict(name=d["obligation"], model_float=d["model_float"], path=d.get("path"))
+    rec = dict(name=d["obligation"], model_float=d["model_float"], path=d.get("path"), model=d.get("model"))
     rp = prop.replay(t, rec)
+    if not rp.get("confirmed") and "valgrind" in str((d.get("replay") or {}).get("detail")):
+        from . import vgreplay
+        tier = "quick" if d["task"] in {x.name for x in prop.tasks("quick")} else "thorough"
+        rp = vgreplay.confirm(prop.PROP_ID, tier, t.name, d.get("model_float") or {})
     print(json.dumps(rp, indent=1, default=str))
     if rp.get("confirmed"):
         print("VIOLATION property=%s replay=%s" % (prop.PROP_ID, path))
